@@ -70,6 +70,8 @@ pub trait Prop {
   fn timeout_ms(_tier: Tier) -> u64 { 30_000 }
   fn crash_is_violation() -> bool { true }
   fn timeout_is_violation() -> bool { false }
+  /// bound on proptest's shrink executions per failure (a fixed count, never a time limit); lower for properties whose cases are expensive
+  fn max_shrink_iters() -> u32 { 4000 }
   fn strategy(tier: Tier, known: &Known) -> BoxedStrategy<Self::Case>;
   /// enumerated cases (exhaustive sub-spaces, corpora); run before the random ones
   fn fixed_cases(_tier: Tier) -> Vec<Self::Case> { vec![] }
@@ -285,7 +287,7 @@ fn worker_body<P: Prop>(a: WorkerArgs) {
     cases: 1,
     failure_persistence: None,
     rng_seed: RngSeed::Fixed(wseed),
-    max_shrink_iters: 4000,
+    max_shrink_iters: P::max_shrink_iters(),
     max_shrink_time: 0,
     ..Config::default()
   };
